@@ -1098,7 +1098,8 @@ fn cli_case(rep: &mut Report, drv: &mut Model, bin: &str, scratch: &std::path::P
     }
     if idx % 25 == 0 || idx < N_CLI_BOUNDARY {
         rep.sample(json!({"argv": cj["argv"], "situation": c.situation, "exit": code, "blocks": tests.len(),
-            "rejecting": tests.iter().filter(|(_, t)| !t.accept).count(), "model": ans.as_deref().map(abbreviate)}));
+            "rejecting": tests.iter().filter(|(_, t)| !t.accept).count(),
+            "model": ans.as_deref().map(|a| format!("{} ({} T-events)", a.split(' ').next().unwrap_or(""), a.matches(" T:").count()))}));
     }
 }
 
